@@ -220,6 +220,7 @@ struct setup_data {
 	| DUMP_DH_COMPRESSED_ZSTD	\
 		)
 
+static void diskdump_attr_cleanup(struct attr_dict *dict);
 static void diskdump_cleanup(struct kdump_shared *shared);
 
 /** Convert a PFN to a page descriptor file offset.
@@ -1096,6 +1097,7 @@ open_common(kdump_ctx_t *ctx, void *hdr)
 	return ret;
 
  err_cleanup:
+	diskdump_attr_cleanup(ctx->dict);
 	diskdump_cleanup(ctx->shared);
 	return ret;
 }
@@ -1163,6 +1165,8 @@ diskdump_attr_cleanup(struct attr_dict *dict)
 {
 	struct disk_dump_priv *ddp = dict->shared->fmtdata;
 
+	if (!ddp)
+		return;
 	attr_remove_override(dgattr(dict, GKI_memory_pagemap),
 			     &ddp->mem_pagemap_override);
 }
